@@ -63,6 +63,7 @@ def correspond(ctx):
                 impl.append((key, pr, float(born[idx]), [float(abs(np.sum(p) - 1)) for p in sr.ps]))
                 exprs.append(f"encode {g_list([str(b) + '%nat' for b in bits])}")
                 cases.append(dict(seed=seed, L=L, basis=basis, bits=list(bits), bond=max(t.shape[2] for t in mps.tensors)))
+    wide_correspondence(ctx)
     vals = common.coq_eval_sharded(HEADER, exprs, tag="c12")
     for c, (key, pr, born, defects), m in zip(cases, impl, vals):
         nontriv = c["bond"] > 1 or c["basis"] != "Z"
@@ -76,6 +77,49 @@ def correspond(ctx):
                           {"oracle": "branch", **c})
         if max(defects) > 1e-9:
             ctx.violation("conditional-not-normalised", f"a conditional probability vector handed to choice() sums to 1 +- {max(defects):.2e}", {"oracle": "branch", **c})
+
+
+def wide_correspondence(ctx):
+    """registers of 64 and more sites (product head, entangled tail): forced outcome strings with ones on the high sites; the key
+    vs Sampling.encodeZ (Python integers are unbounded) and the chain probability of the forced string vs the product of the head
+    weights and the dense Born weight of the tail"""
+    from mqt.yaqs.core.data_structures.networks import MPS
+
+    cases, exprs, impl = [], [], []
+    for k in range(ctx.scale(8, 80)):
+        rng = np.random.default_rng(int(ctx.rng.integers(0, 2**31)))
+        L, tail = int(rng.integers(64, 71)), 4
+        tens, head_amp = [], []
+        for i in range(L - tail):
+            a = rng.normal(size=2) + 1j * rng.normal(size=2)
+            a /= np.linalg.norm(a)
+            head_amp.append(a)
+            tens.append(a.reshape(2, 1, 1))
+        dims = [1, 2, 2, 2, 1]
+        tl = [rng.normal(size=(2, dims[j], dims[j + 1])) + 1j * rng.normal(size=(2, dims[j], dims[j + 1])) for j in range(tail)]
+        tail_mps = MPS(tail, tensors=[t.copy() for t in tl], physical_dimensions=[2] * tail)
+        tail_mps.normalize("B")
+        mps = MPS(L, tensors=tens + [t.copy() for t in tail_mps.tensors], physical_dimensions=[2] * L)
+        tv = dense.mps_dense(tail_mps)
+        for rep in range(3):
+            bits = [int(b) for b in rng.integers(0, 2, size=L)]
+            for hi in rng.choice(np.arange(60, L), size=int(rng.integers(1, 4)), replace=False):
+                bits[int(hi)] = 1
+            sr = Scripted(bits)
+            key = mps.measure_single_shot("Z", rng=sr)
+            pr = float(np.prod([p[b] for p, b in zip(sr.ps, bits)]))
+            want = float(np.prod([abs(head_amp[i][bits[i]]) ** 2 for i in range(L - tail)]) * abs(tv[int("".join(map(str, bits[L - tail:])), 2)]) ** 2)
+            impl.append((key, pr, want))
+            exprs.append(f"encodeZ {g_list([str(b) + '%nat' for b in bits])}")
+            cases.append(dict(L=L, ones_at=[i for i, b in enumerate(bits) if b and i >= 56]))
+    vals = common.coq_eval_sharded("From Coq Require Import List ZArith. Import ListNotations.\nFrom Yaqs Require Import Model.Sampling.", exprs, tag="c12w")
+    for c, (key, pr, want), m in zip(cases, impl, vals):
+        ctx.case(nontrivial_key=("wide", c["L"], tuple(c["ones_at"])), validated=True, sample={**c, "key": str(key)} if len(ctx.samples) < 3 else None)
+        ctx.count("wide_registers")
+        if key != m:
+            ctx.mismatch("measure_single_shot key vs Sampling.encodeZ (registers of 64 and more sites)", c, str(key), str(m), key="wide-key")
+        if abs(pr - want) > 1e-9 * max(want, 1e-300) + 1e-300:
+            ctx.violation("born-wide", f"{c['L']} sites: the chain assigns probability {pr:.6e} to a forced outcome, Born probability is {want:.6e}", {"oracle": "wide", **c})
 
 
 def measure_oracle(args):
@@ -130,6 +174,8 @@ def weak_oracle(args):
             qc.cx(q, q + 1)
     elif args["kind"] == "flip0":
         qc.x(0)
+    elif args["kind"] == "wide":
+        qc.x(1); qc.h(n - 3); qc.cx(n - 3, n - 2); qc.x(n - 1)  # noqa: E702
     else:
         qc.x(n - 1); qc.h(0)  # noqa: E702
     p = WeakSimParams(shots=shots, show_progress=False)
@@ -149,6 +195,13 @@ def weak_oracle(args):
         simulator.run(MPS(n), qc, p, nm, parallel=False)
     if sum(p.results.values()) != shots:
         return f"weak simulation returned counts summing to {sum(p.results.values())} for {shots} shots"
+    if args["kind"] == "wide":  # too wide for a dense vector: the two possible outcomes are known in closed form
+        allowed = {(1 << 1) | (1 << (n - 1)), (1 << 1) | (1 << (n - 1)) | (1 << (n - 3)) | (1 << (n - 2))}
+        bad = [key for key in p.results if key not in allowed]
+        if bad:
+            return (f"weak simulation of {n} qubits returned key {bad[0]} which is not a possible outcome (qubits 1 and {n - 1} are always 1, "
+                    f"qubits {n - 3} and {n - 2} are equal; bit i = qubit i): possible keys {sorted(allowed)}")
+        return None
     probs = np.abs(Statevector(qc).data) ** 2  # little-endian: bit i of the index is qubit i
     for key in p.results:
         if not (0 <= key < 2**n):
@@ -176,7 +229,8 @@ def search(ctx):
             dict(n=3, shots=9, kind="flip0", noisy=False, history=[True]), dict(n=2, shots=5, kind="flip0", noisy=True, history=[False]),
             dict(n=3, shots=6, kind="ghz", noisy=False, history=[True, False, True]),
             dict(n=2, shots=7, kind="flip0", noisy=True, strength=0.0), dict(n=2, shots=7, kind="flip0", noisy=True, strength=1e-13),
-            dict(n=3, shots=5, kind="x_last", noisy=True, strength=1e-9), dict(n=2, shots=4, kind="flip0", noisy=True, strength=5e-324)]
+            dict(n=3, shots=5, kind="x_last", noisy=True, strength=1e-9), dict(n=2, shots=4, kind="flip0", noisy=True, strength=5e-324),
+            dict(n=66, shots=12, kind="wide", noisy=False)]
     if not ctx.quick:
         plan += [dict(n=int(ctx.rng.integers(2, 5)), shots=int(ctx.rng.integers(1, 30)), kind=str(ctx.rng.choice(["ghz", "flip0", "x_last"])), noisy=bool(ctx.rng.random() < 0.4),
                       strength=float(ctx.rng.choice([0.05, 0.0, 1e-15, 1e-13, 1e-11, 1e-7, 0.3])),
